@@ -14,3 +14,9 @@
 (c26 (eps 1/4) (fl (n0 1)) (acts (i a0 (pre) (eff (n0 inc 1)))) (teff) (tgoal (1 7/4 F T (n0 ge 1))) (goal) (plan (1 a0 -)))
 ; D-C26b (fixed by notes/patches/C26-stn-conversion-environment.patch): a problem of its own Environment with a durative action and a timed effect
 (c26 (eps -) (env F) (fl (p0 F) (p1 F)) (acts (d a (dur 2 2 F F) (cond ((S 0) (E 0) T T (p0 T))) (eff ((S 0) (p0 T)) ((E 0) (p0 F)))) (i b (pre (p0 T) (p1 T)) (eff))) (teff (1/2 (p1 T))) (tgoal) (goal) (plan (1 a 2) (2 b -)))
+; half-open over-all conditions with a later writer of the condition's fluent that is otherwise free to move earlier:
+; the reader at the CLOSED end must stay ordered before the writer (left-open/right-closed and left-closed/right-open)
+(c26 (eps -) (fl (p T) (q F) (done F)) (acts (d hold (dur 5 5 F F) (cond ((S 0) (E 0) T F (p T))) (eff ((S 0) (q T)) ((E 0) (done T)))) (i drop (pre) (eff (p F)))) (teff) (tgoal) (goal (done T) (p F)) (plan (0 hold 5) (6 drop -)))
+(c26 (eps -) (fl (p T) (q F) (done F)) (acts (d hold (dur 5 5 F F) (cond ((S 0) (E 0) F T (p T))) (eff ((S 0) (q T)) ((E 0) (done T)))) (i drop (pre) (eff (p F)))) (teff) (tgoal) (goal (done T) (p F)) (plan (0 hold 5) (6 drop -)))
+(c26 (eps -) (fl (p F) (q F) (done F)) (acts (d hold (dur 5 5 F F) (cond ((S 0) (E 0) F T (p T))) (eff ((S 0) (q T)) ((E 0) (done T)))) (i raise (pre) (eff (p T)))) (teff) (tgoal) (goal (done T)) (plan (1 hold 5) (0 raise -)))
+(c26 (eps -) (fl (p F) (q F) (done F)) (acts (d hold (dur 5 5 F F) (cond ((S 0) (E 0) T F (p T))) (eff ((S 0) (q T)) ((E 0) (done T)))) (i raise (pre) (eff (p T)))) (teff) (tgoal) (goal (done T)) (plan (1 hold 5) (1 raise -)))
